@@ -122,10 +122,17 @@ def generate(
     return None
 
 
+_inf = float("inf")
+
+
 def has_safe_repr(value: t.Any) -> bool:
     """Does the node have a safe representation?"""
     if value is None or value is NotImplemented or value is Ellipsis:
         return True
+
+    # inf and nan have no literal form
+    if type(value) is float and (value != value or value in (_inf, -_inf)):
+        return False
 
     if type(value) in {bool, int, float, complex, range, str, Markup}:
         return True
